@@ -6,6 +6,7 @@ import (
 	"io"
 	"sort"
 	"sync"
+	"time"
 
 	"github.com/docker/docker/api/types"
 	apicontainer "github.com/docker/docker/api/types/container"
@@ -113,7 +114,12 @@ func (f *fakeDocker) waitTurn(id string) {
 	}
 	f.mu.Unlock()
 	if prev != nil {
-		<-prev
+		// best effort: if the predecessor never issues its request (an implementation may skip it),
+		// go ahead after a while instead of blocking the query for ever
+		select {
+		case <-prev:
+		case <-time.After(500 * time.Millisecond):
+		}
 	}
 }
 
